@@ -7,6 +7,8 @@ EXTENDS UdpExchange
 MCAllDgrams == AllDgrams
 MCDev1 == DevDgrams(1)
 MCDev2 == DevDgrams(2)
+MCLiveD == {d \in DevDgrams(1) : d.wf \in {"yes", "badRdata"} /\ d.qm \in {"same", "different"} /\ d.src \in {"dest", "otherAddr"}}
 MCConfigsFull == ConfigsOver({"udp", "recv", "fallback"}, {0, 3, 5}, BOOLEAN, {"v4", "v6"})
-MCConfigsNoClock == ConfigsOver({"udp", "recv", "fallback"}, {0, 5}, BOOLEAN, {"v6"})
+MCConfigsStatic == ConfigsOver({"udp", "recv", "fallback"}, {0}, BOOLEAN, {"v6"})
+MCConfigsLive == {c \in ConfigsOver({"udp", "recv"}, {0, 3}, {FALSE}, {"v6"}) : c.it /\ ~c.anysrc /\ c.hasq}
 =============================================================================
